@@ -272,7 +272,7 @@ PROPS["C17"] = dict(
           "validation: rule-free schemas x instances x one planted violation, non-trivial = planted at depth>=1; distinct by the inputs"),
     assumptions=["the planted violation is the only deviation (re-checked with the reference shape decider; documents with duplicate keys are skipped)"],
     jobs=[job("render-exhaustive", "^TestRenderExhaustive$", (1, 1), (1, 1), (900, 3000)),
-          job("generated", "^Test(RenderRandom|ParsePositions|ParsePositionsOfTheOtherScanners|ValidationPositions|UnknownKeyUnderAlternatives)$", (4, 16), (6000, 400000), (900, 3000))],
+          job("generated", "^Test(RenderRandom|ParsePositions|ParsePositionsOfTheOtherScanners|ValidationPositions|UnknownKeyUnderAlternatives|UnfinishedCommentOpener)$", (4, 16), (6000, 400000), (900, 3000))],
 )
 PROPS["C07"] = dict(
     pkg="c07", level="exploration", exhaustive_claim=False,
